@@ -1,6 +1,7 @@
 package c13
 
 import (
+	"github.com/ethereum/go-ethereum/common"
 	"github.com/cosmos/cosmos-sdk/x/params"
 	paramproposal "github.com/cosmos/cosmos-sdk/x/params/types/proposal"
 	"time"
@@ -94,6 +95,34 @@ func aggregateStates(h *c07.Host) []sdk.Context {
 		params := k.GetParams(ctx)
 		params.EnableEVMHook = !params.EnableEVMHook
 		k.SetParams(ctx, params)
+	})
+	// 3: a pair with two denominations whose contract self-destructed; a conversion triggered the clean-up (registry after removal)
+	mk(func(ctx sdk.Context) {
+		mint(ctx, "acoin", "bcoin", "ccoin")
+		p, err := k.RegisterCoin(ctx, Meta("acoin", "Coin A"))
+		if err != nil {
+			panic(err)
+		}
+		if _, err := k.AddCoin(ctx, Meta("bcoin", "Coin B"), p.ERC20Address); err != nil {
+			panic(err)
+		}
+		if _, err := k.RegisterCoin(ctx, Meta("ccoin", "Coin C")); err != nil {
+			panic(err)
+		}
+		if err := h.C.App.EvmKeeper.DeleteAccount(ctx, common.HexToAddress(p.ERC20Address)); err != nil {
+			panic(err)
+		}
+		r1 := h.C.Accounts["r1"]
+		if err := h.C.App.BankKeeper.SendCoinsFromModuleToAccount(ctx, aggregatetypes.ModuleName, r1.Acc, sdk.NewCoins(sdk.NewInt64Coin("acoin", 5))); err != nil {
+			panic(err)
+		}
+		// the conversion finds the contract gone and removes the pair (no error, nothing moves)
+		if _, err := k.ConvertCoin(sdk.WrapSDKContext(ctx), aggregatetypes.NewMsgConvertCoin(sdk.NewInt64Coin("acoin", 1), r1.Eth, r1.Acc)); err != nil {
+			panic(err)
+		}
+		if _, found := k.GetTokenPair(ctx, k.GetDenomMap(ctx, "acoin")); found {
+			panic("fixture: the pair of the destroyed contract was not removed")
+		}
 	})
 	return out
 }
